@@ -115,8 +115,13 @@ pub fn main(args: &crate::Args) {
         let (w, h) = (p.w, p.h);
         let big = w * h > 130;
         let huge = w * h > 100_000;
+        // features placed at arbitrary coordinates (patch targets, spline control points) are cut by edges that the
+        // group / lane critical sets do not contain: for those streams every x (and, in thorough, every y) is used
+        let positional = streams[si].0.contains("patches") || (!quick && streams[si].0.contains("splines"));
         let (xs, ys): (Vec<u32>, Vec<u32>) = if !big {
             ((0..=w).collect(), (0..=h).collect())
+        } else if positional && w * h <= 2000 {
+            ((0..=w).collect(), if quick { critical(h, true) } else { (0..=h).collect() })
         } else if huge && quick {
             (vec![0, 1, 255, 256, w - 1, w], vec![0, 129, 256, 257, h - 1, h])
         } else {
